@@ -272,7 +272,7 @@ def run(ctx):
         failures += afails
         lean["theorems"] = lean["theorems"] + aths
         lean["ok"] = lean["ok"] and all(t["ok"] for t in aths) and not afails
-        ctx.log(f"arith tie (Gen.blocksRange regenerated): {'ok' if not afails else 'NOT ok'}")
+        ctx.log(f"arith tie (Gen.* regenerated from the source): {'ok' if not afails else 'NOT ok'}")
 
     def done(corr=None):
         return vlib.result(lean=lean, corr=corr, failures=failures, generated=generated, extra_obligations=extra,
